@@ -71,6 +71,12 @@ def run(check, prog):
     c02.yang(check, prog, canon)
     c02.qratio(check, prog)
     c02.seam(check, prog, canon)
+    # ... evaluated at the layers' outer radii (rule shared with C02)
+    c02.layered_radii(check, prog, canon)
+    # ... and solved afresh for every call: no coefficients kept on the theory
+    # object from an earlier wavelength (rule shared with C01)
+    from . import c01
+    c01.f5_state(check, prog)
     # a one-sphere cluster equals the single-sphere series only while the compiled
     # expansion can hold it (rule shared with C02)
     from . import c02 as _c02
